@@ -351,7 +351,8 @@ def attributed(r, f):
     # match everything); asserts and preconditions without clause text fall back to the site
     text = f.get("clause") or f.get("site") or f.get("sig", "")
     if f.get("clause") and "precondition" in f.get("message", ""):
-        text = f["clause"]
+        # the failing clause and the call it guards (for a precondition the site is the call expression)
+        text = f["clause"] + " @ " + (f.get("site") or "")
     for (rx, props) in spec.get("attribution", []):
         if re.search(rx, text):
             return props
